@@ -126,6 +126,7 @@ Record cfg := {
 Record world := {
   w_reflects : addr -> addr -> bool;   (* contract → sender → does the contract dispatch the given messages *)
   w_gov : addr;                         (* gov module account *)
+  w_ica_acct : addr -> bool;            (* registered interchain accounts *)
   w_ica_allow : mkind -> bool           (* ICA host allow-list *)
 }.
 
@@ -155,10 +156,11 @@ Fixpoint dec_rejects (c : cfg) (lvl : nat) (t : msg) : bool :=
   end.
 
 (** wasmext.handleSdkMessage: ante.CheckStakingCommission([]sdk.Msg{msg}) when present *)
-Definition wasm_admits (c : cfg) (t : msg) : bool := negb (wasm_check c && dec_rejects c 0 t).
+Definition wasm_admits (c : cfg) (ctr : addr) (t : msg) : bool :=
+  Nat.eqb (signer leaf leaf_signer t) ctr && negb (wasm_check c && dec_rejects c 0 t).
 
 Definition run_msg (c : cfg) (w : world) : msg -> st -> option st :=
-  run leaf leaf_signer leaf_kind st leaf_basic leaf_run granted (w_reflects w) (wasm_admits c) (w_gov w) (w_ica_allow w).
+  run leaf leaf_signer leaf_kind st leaf_basic leaf_run granted (w_reflects w) (wasm_admits c) (w_gov w) (w_ica_acct w) (w_ica_allow w).
 
 Definition run_msgs (c : cfg) (w : world) (ms : list msg) (s : st) : option st :=
   seq_opt (run_msg c w) (fun _ _ => true) ms s.
@@ -228,11 +230,13 @@ Definition cmp_of_site (x : comparison_site) (operand : string) (need_nil_safe :
   then Some (c_method x) else None.
 
 Definition cfg_of_facts (nonevm evm : list string) (x : ext_facts) (g : guard) (cs es : comparison_site)
-           (mx : option Z) (wh : wasm_facts) : cfg :=
+           (mx : option Z) (wh : wasm_facts) (registered_ext : list string) : cfg :=
   {| cap := match mx with Some z => z | None => ONE + 1 end;
      nonevm_known := match route_of x NoExt with RouteNonEVM => true | _ => false end;
      evm_route := route_of x EvmExt;
-     other_route := route_of x OtherExt;
+     (* an extension option that is not registered with the codec fails tx decoding before any ante handler *)
+     other_route := if forallb (String.eqb "ExtensionOptionsEthereumTx") registered_ext then RouteReject
+                    else route_of x OtherExt;
      evm_only_eth := mem N_ETH_VALIDATE_BASIC evm;
      vb_on := mem N_VALIDATE_BASIC nonevm;
      sig_on := mem N_SET_PUBKEY nonevm && mem N_SIG_VERIFY nonevm;
